@@ -173,18 +173,66 @@ pub fn on_park() {
     IDLE.notify_one();
 }
 
-/// Run the system until nothing but the simulator is runnable.
-async fn quiesce(_net: &NetRef) -> u64 {
+/// Wait until the scheduler's run queue has been empty once more.
+async fn wait_park() {
     let start = PARKS.load(Ordering::SeqCst);
-    let mut rounds = 0;
     loop {
         IDLE.notified().await;
-        rounds += 1;
         // a stale permit from an earlier park returns at once: wait for a fresh one
         if PARKS.load(Ordering::SeqCst) > start {
+            return;
+        }
+    }
+}
+
+/// Run the system until nothing but the simulator is runnable.
+///
+/// One park is not enough: the park callback wakes the simulator *before* the
+/// runtime polls its root future (hyper's accept loop lives there), so a task
+/// spawned by that poll would still be waiting behind the simulator. Quiescent
+/// means: two consecutive parks without any transport activity in between.
+async fn quiesce(net: &NetRef) -> u64 {
+    let mut rounds = 0;
+    let mut quiet = 0;
+    let mut last = net.lock().unwrap().activity;
+    loop {
+        wait_park().await;
+        rounds += 1;
+        let now = net.lock().unwrap().activity;
+        if now == last {
+            quiet += 1;
+            if quiet >= 2 {
+                return rounds;
+            }
+        } else {
+            quiet = 0;
+            last = now;
+        }
+        if rounds > 1_000_000 {
             return rounds;
         }
     }
+}
+
+/// Quiescence including the work parked at the blocking-pool gates: with
+/// `all`, every gate is opened (repeatedly, new work may arrive) until none is
+/// left; otherwise each pending gate is opened with probability 1/2, once.
+async fn settle(net: &NetRef, all: bool, stats: &mut BTreeMap<String, u64>) -> u64 {
+    let mut rounds = quiesce(net).await;
+    loop {
+        let opened = open_gates(all);
+        if opened > 0 {
+            *stats.entry("blocking_jobs_released".to_string()).or_default() += opened as u64;
+            rounds += quiesce(net).await;
+        }
+        if !all || (opened == 0 && gates_pending() == 0) {
+            break;
+        }
+    }
+    if gates_pending() > 0 {
+        *stats.entry("steps_with_blocking_work_in_flight".to_string()).or_default() += 1;
+    }
+    rounds
 }
 
 fn wake(w: Option<std::task::Waker>) {
@@ -403,25 +451,7 @@ async fn drive(net: NetRef, run: RunDesc, port: u16) -> Value {
             bump("batched_actions", 1, &mut stats);
             continue;
         }
-        quiesce_rounds += quiesce(&net).await;
-        // blocking-pool work: some of it runs now, some stays in flight
-        let is_probe = matches!(a, Action::Probe);
-        loop {
-            let opened = open_gates(is_probe);
-            if opened == 0 && !(is_probe && gates_pending() > 0) {
-                break;
-            }
-            if opened > 0 {
-                bump("blocking_jobs_released", opened as u64, &mut stats);
-            }
-            quiesce_rounds += quiesce(&net).await;
-            if !is_probe {
-                break;
-            }
-        }
-        if gates_pending() > 0 {
-            bump("steps_with_blocking_work_in_flight", 1, &mut stats);
-        }
+        quiesce_rounds += settle(&net, matches!(a, Action::Probe), &mut stats).await;
         if let Action::Probe = a {
             // bounded liveness: the probe must be answered once the system is quiet.
             let p = probes.last().unwrap();
@@ -434,7 +464,7 @@ async fn drive(net: NetRef, run: RunDesc, port: u16) -> Value {
                 let deadline = Instant::now() + Duration::from_secs(60);
                 while !responses_complete(p) && Instant::now() < deadline {
                     std::thread::sleep(Duration::from_millis(2));
-                    quiesce(&net).await;
+                    settle(&net, true, &mut stats).await;
                     bump("waited_for_other_threads", 1, &mut stats);
                 }
                 if !responses_complete(p) {
@@ -456,10 +486,7 @@ async fn drive(net: NetRef, run: RunDesc, port: u16) -> Value {
                 && !responses_complete(c)
         })
     };
-    while gates_pending() > 0 {
-        open_gates(true);
-        quiesce(&net).await;
-    }
+    settle(&net, true, &mut stats).await;
     if pending(&clients) {
         if std::env::var("VERIF_C20_DEBUG").is_ok() {
             for (i, c) in clients.iter().enumerate() {
@@ -473,7 +500,7 @@ async fn drive(net: NetRef, run: RunDesc, port: u16) -> Value {
         let deadline = Instant::now() + Duration::from_secs(120);
         while pending(&clients) && Instant::now() < deadline {
             std::thread::sleep(Duration::from_millis(2));
-            quiesce(&net).await;
+            settle(&net, true, &mut stats).await;
             bump("waited_for_other_threads", 1, &mut stats);
         }
     }
